@@ -31,6 +31,20 @@ pub mod vba { pub struct VbaError; }
 //@@ item src/xls.rs enum XlsError cfg_off=picture
 //@@ item src/cfb.rs struct XlsEncoding
 //@@ item src/xls.rs struct Record
+//@@ item src/xls.rs enum Biff keep_attrs
+//@@ item src/lib.rs enum CellErrorType keep_attrs
+//@@ item src/lib.rs trait "trait CellType"
+//@@ item src/lib.rs struct Cell
+//@@ item src/datatype.rs enum ExcelDateTimeType keep_attrs
+//@@ item src/datatype.rs struct ExcelDateTime keep_attrs
+//@@ item src/datatype.rs enum Data keep_attrs
+//@@ item src/formats.rs enum CellFormat keep_attrs
+impl CellType for Data {}
+// spec-level access to the private fields of Cell
+impl<T: CellType> Cell<T> {
+    pub closed spec fn p(&self) -> (u32, u32) { self.pos }
+    pub closed spec fn v(&self) -> T { self.val }
+}
 
 //@@ include common/bytes.rs
 
@@ -594,6 +608,25 @@ pub open spec fn sst_spec(e: XlsEncoding, f: Seq<Seq<u8>>) -> Option<Seq<Seq<cha
 }
 pub open spec fn texts(v: Seq<String>) -> Seq<Seq<char>> { Seq::new(v.len(), |i: int| v[i]@) }
 
+//@@ props C12,C19
+proof fn lemma_sst_items_step(e: XlsEncoding, f: Seq<Seq<u8>>, n: nat)
+    requires n > 0,
+    ensures
+        sst_items(e, f, n) is Some ==> sst_item(e, f) is Some && sst_items(e, sst_item(e, f)->Some_0.1, (n - 1) as nat) is Some
+            && sst_items(e, f, n)->Some_0.0 == seq![sst_item(e, f)->Some_0.0] + sst_items(e, sst_item(e, f)->Some_0.1, (n - 1) as nat)->Some_0.0
+            && sst_items(e, f, n)->Some_0.1 == sst_items(e, sst_item(e, f)->Some_0.1, (n - 1) as nat)->Some_0.1,
+{
+}
+proof fn lemma_sst_items_len(e: XlsEncoding, f: Seq<Seq<u8>>, n: nat)
+    ensures sst_items(e, f, n) is Some ==> sst_items(e, f, n)->Some_0.0.len() == n,
+    decreases n
+{
+    if n > 0 && sst_item(e, f) is Some { lemma_sst_items_len(e, sst_item(e, f)->Some_0.1, (n - 1) as nat); }
+}
+
+// own module: keeps the std specifications this function needs (ranges, Vec<String>, TryInto) out of the proof context of the others
+mod m_parse_sst {
+use super::*;
 //@@ fn src/xls.rs parse_sst props=C12,C19 entry ret=res
 //@@ sig
     ensures
@@ -604,7 +637,218 @@ pub open spec fn texts(v: Seq<String>) -> Seq<Seq<char>> { Seq::new(v.len(), |i:
         //# C19.sst_index
         sst_spec(*encoding, frags(*old(r))) is Some ==> res is Ok && res->Ok_0@.len() == sst_count(old(r).data@)
             && forall|i: int| 0 <= i < res->Ok_0@.len() ==> (#[trigger] res->Ok_0@[i])@ == sst_spec(*encoding, frags(*old(r)))->Some_0[i],
+        //# C12.sst_frame
+        same_record(*old(r), *final(r)),
+//@@ body
+    hide(sst_item); hide(total); hide(frags);
+    let ghost r0 = *r;
+    let ghost f0 = frags(*r);
+    let ghost e = *encoding;
+    proof { lemma_frags_head(r0); }
+//@@ before /let mut sst = /
+    //# C06.sst_alloc_bound
+    // allocation: every string of the table occupies at least 3 bytes, so a count the record (with its continuations) can hold is at most a third of its size
+    assert(3 * len <= total(f0));
+//@@ before /for _ in /
+    let ghost cnt = sst_count(r0.data@);
+    let ghost f8 = frags(*r);
+    proof {
+        lemma_frags_adv(r0, *r, 8);
+        assert(cnt >= 0 ==> len == cnt);
+        assert(texts(sst@) =~= Seq::<Seq<char>>::empty());
+    }
+//@@ loop 0 it
+        invariant
+            e == *encoding, r0 == *old(r), f0 == frags(r0),
+            same_record(r0, *r),
+            cnt >= 0 ==> len == cnt,
+            sst@.len() == it.index@,
+            it.index@ <= len,
+            f0.len() >= 1 && f0[0].len() >= 8 && f8 == adv(f0, 8) && cnt == sst_count(f0[0]),
+            cnt >= 0 && sst_items(e, f8, cnt as nat) is Some ==> sst_items(e, frags(*r), (cnt - it.index@) as nat) is Some
+                && sst_items(e, f8, cnt as nat)->Some_0.0 == texts(sst@) + sst_items(e, frags(*r), (cnt - it.index@) as nat)->Some_0.0,
+//@@ before /sst\.push\(/
+        let ghost fi = frags(*r);
+        let ghost si = sst@;
+        proof { if cnt >= 0 { lemma_sst_items_step(e, fi, (cnt - it.index@) as nat); } }
+//@@ after /sst\.push\([^;]*;/
+        proof {
+            if cnt >= 0 && sst_items(e, f8, cnt as nat) is Some {
+                let t = sst_item(e, fi)->Some_0.0;
+                assert(sst@ == si.push(sst@[si.len() as int]));
+                assert(sst@[si.len() as int]@ == t);
+                assert(texts(sst@) =~= texts(si) + seq![t]);
+                let rest = sst_items(e, frags(*r), (cnt - it.index@ - 1) as nat)->Some_0.0;
+                assert(texts(si) + (seq![t] + rest) =~= texts(sst@) + rest);
+            }
+        }
+//@@ before /Ok\(sst\)/
+    proof {
+        if cnt >= 0 && sst_items(e, f8, cnt as nat) is Some {
+            lemma_sst_items_len(e, f8, cnt as nat);
+            assert(sst_items(e, frags(*r), 0)->Some_0.0 =~= Seq::<Seq<char>>::empty());
+            assert(texts(sst@) + Seq::<Seq<char>>::empty() =~= texts(sst@));
+        }
+    }
 //@@ end
+} // mod m_parse_sst
+
+// =====================================================================================================
+// Strings held in a single record: ShortXLUnicodeString (2.5.240), XLUnicodeString (2.5.294), XLUnicodeStringNoCch (2.5.296),
+// Label (2.4.148), Format (2.4.126)
+// =====================================================================================================
+/// text of `cch` characters stored at the start of `rgb` in the storage form `eff` (Some(true): 2 bytes per character; otherwise 1)
+pub open spec fn str_width(eff: Option<bool>) -> int { if eff == Some(true) { 2 } else { 1 } }
+pub open spec fn str_fits(eff: Option<bool>, rgb: Seq<u8>, cch: int) -> bool { rgb.len() >= cch * str_width(eff) }
+pub open spec fn str_text(e: XlsEncoding, eff: Option<bool>, rgb: Seq<u8>, cch: int) -> Seq<char> {
+    let b = rgb.subrange(0, cch * str_width(eff));
+    decode(e, if eff == Some(false) { zext(b) } else { b })
+}
+//@@ props C12,C19
+/// when the characters are all there, what decode_to appends is the text of exactly cch characters
+proof fn lemma_dt_full(e: XlsEncoding, eff: Option<bool>, rgb: Seq<u8>, cch: int)
+    requires 0 <= cch, str_fits(eff, rgb, cch),
+    ensures decode(e, dt_bytes(eff, rgb, cch)) == str_text(e, eff, rgb, cch), dt_l(eff, rgb.len() as int, cch) == cch,
+{
+    if eff == Some(true) {
+        assert(rgb.len() as int / 2 >= cch);
+    }
+}
+
+/// has this BIFF version a flag byte in front of character data (BIFF8) or not
+pub open spec fn biff_has_flags(b: Biff) -> bool { b is Biff8 }
+
+mod m_strings {
+use super::*;
+
+//@@ impl src/lib.rs Cell
+//@@ fn src/lib.rs Cell::new props=C19 ret=c
+//@@ sig
+    ensures
+        //# C19.cell_new
+        c.p() == position && c.v() == value,
+//@@ end
+//@@ endimpl
+
+/// [MS-XLS] 2.5.240 ShortXLUnicodeString: cch (1 byte), BIFF8: flags (1 byte, bit 0 fHighByte), rgb
+pub open spec fn short_hdr(b: Biff) -> int { if biff_has_flags(b) { 2 } else { 1 } }
+pub open spec fn short_hb(d: Seq<u8>, b: Biff) -> Option<bool> { if biff_has_flags(b) { Some(d[1] & 0x1 != 0) } else { None } }
+
+//@@ fn src/xls.rs parse_short_string props=C12,C19 entry ret=res
+//@@ sig
+    ensures
+        //# C19.short_string_len_guard
+        old(r).data@.len() < 2 <==> res is Err,
+        //# C19.short_string_text
+        old(r).data@.len() >= 2 && str_fits(eff_hb(*encoding, short_hb(old(r).data@, biff)), old(r).data@.skip(short_hdr(biff)), old(r).data@[0] as int)
+            ==> res is Ok && res->Ok_0@ == str_text(*encoding, eff_hb(*encoding, short_hb(old(r).data@, biff)), old(r).data@.skip(short_hdr(biff)), old(r).data@[0] as int),
+        //# C19.short_string_cursor
+        res is Ok ==> final(r).data@ == old(r).data@.skip(short_hdr(biff)) && final(r).cont == old(r).cont && final(r).typ == old(r).typ,
+//@@ before /let _ = encoding\.decode_to/
+    proof {
+        let d = old(r).data@;
+        assert(r.data@ =~= d.skip(short_hdr(biff)));
+        if str_fits(eff_hb(*encoding, high_byte), r.data@, cch as int) { lemma_dt_full(*encoding, eff_hb(*encoding, high_byte), r.data@, cch as int); }
+    }
+//@@ end
+
+/// [MS-XLS] 2.5.294 XLUnicodeString: cch (2 bytes), BIFF8: flags (1 byte), rgb.  (BIFF5: cch (2 bytes), rgb in the code page.)
+pub open spec fn xl_hdr(b: Biff) -> int { if biff_has_flags(b) { 3 } else { 2 } }
+pub open spec fn xl_hb(r: Seq<u8>, b: Biff) -> Option<bool> { if biff_has_flags(b) { Some(r[2] & 0x1 != 0) } else { None } }
+/// a complete XLUnicodeString: header and all cch characters present
+pub open spec fn xl_wf(e: XlsEncoding, r: Seq<u8>, b: Biff) -> bool {
+    r.len() >= xl_hdr(b) && str_fits(eff_hb(e, xl_hb(r, b)), r.skip(xl_hdr(b)), le16(r))
+}
+pub open spec fn xl_text(e: XlsEncoding, r: Seq<u8>, b: Biff) -> Seq<char> {
+    str_text(e, eff_hb(e, xl_hb(r, b)), r.skip(xl_hdr(b)), le16(r))
+}
+
+//@@ fn src/xls.rs parse_string props=C19 entry ret=res
+//@@ sig
+    ensures
+        //# C19.xl_string_text
+        xl_wf(*encoding, r@, biff) && r@.len() >= 4 ==> res is Ok && res->Ok_0@ == xl_text(*encoding, r@, biff),
+        //# C19.xl_string_short
+        // a complete string shorter than 4 bytes: BIFF8 empty string (cch = 0: 3 bytes), BIFF5 empty or one-character string (2 or 3 bytes)
+        xl_wf(*encoding, r@, biff) && r@.len() < 4 ==> res is Ok && res->Ok_0@ == xl_text(*encoding, r@, biff),
+        //# C19.xl_string_header_guard
+        r@.len() < xl_hdr(biff) ==> res is Err,
+//@@ before /let _ = encoding\.decode_to/
+    proof {
+        assert(r@.subrange(start as int, r@.len() as int) =~= r@.skip(xl_hdr(biff)));
+        if xl_wf(*encoding, r@, biff) { lemma_dt_full(*encoding, eff_hb(*encoding, high_byte), r@.skip(xl_hdr(biff)), cch as int); }
+    }
+//@@ end
+
+//@@ fn src/xls.rs parse_label props=C19 entry ret=res
+//@@ sig
+    ensures
+        //# C19.label_len_guard
+        r@.len() < 6 ==> res is Err,
+        //# C19.label_cell
+        r@.len() >= 6 && xl_wf(*encoding, r@.skip(6), biff) ==> res is Ok && res->Ok_0 is Some
+            && res->Ok_0->Some_0.p() == (le16(r@) as u32, le16(r@.skip(2)) as u32)
+            && res->Ok_0->Some_0.v() is String && res->Ok_0->Some_0.v()->String_0@ == xl_text(*encoding, r@.skip(6), biff),
+//@@ before /let row = /
+    proof {
+        assert(r@.subrange(2, r@.len() as int) =~= r@.skip(2));
+        assert(r@.subrange(6, r@.len() as int) =~= r@.skip(6));
+    }
+//@@ end
+
+/// [MS-XLS] 2.5.296 XLUnicodeStringNoCch: flags (1 byte, bit 0 fHighByte), rgb of cch characters (cch is stored elsewhere)
+//@@ fn src/xls.rs read_unicode_string_no_cch props=C19 entry
+//@@ sig
+    ensures
+        //# C19.nocch_text_compressed
+        buf@.len() >= 1 && buf@[0] & 0x1 == 0 && str_fits(Some(false), buf@.skip(1), *len as int)
+            ==> final(s)@ == old(s)@ + str_text(*encoding, Some(false), buf@.skip(1), *len as int),
+        //# C19.nocch_text_wide
+        buf@.len() >= 1 && buf@[0] & 0x1 != 0 && str_fits(Some(true), buf@.skip(1), *len as int)
+            ==> final(s)@ == old(s)@ + str_text(*encoding, Some(true), buf@.skip(1), *len as int),
+//@@ body
+    proof {
+        if buf@.len() >= 1 && buf@[0] & 0x1 == 0 && str_fits(Some(false), buf@.skip(1), *len as int) {
+            assert(buf@.subrange(1, *len + 1) =~= buf@.skip(1).subrange(0, *len as int));
+            lemma_dt_full(*encoding, Some(false), buf@.subrange(1, *len + 1), *len as int);
+            assert(buf@.subrange(1, *len + 1).subrange(0, *len as int) =~= buf@.subrange(1, *len + 1));
+        }
+    }
+//@@ end
+
+/// [MS-XLS] 2.4.126 Format: ifmt (2 bytes), stFormat = XLUnicodeString (cch 2 bytes, flags 1 byte, rgb)
+// TRUSTED: the classification of a number-format string is owned by unit `formats` (detect_custom_number_format is verified there);
+// here it is an uninterpreted function of the decoded text
+pub uninterp spec fn fmt_of(s: Seq<char>) -> CellFormat;
+//@@ fn src/formats.rs detect_custom_number_format props=C19 ret=r external_body
+//@@ sig
+    ensures r == fmt_of(format@),
+//@@ end
+
+//@@ fn src/xls.rs parse_format props=C19 entry ret=res
+//@@ sig
+    ensures
+        //# C19.format_len_guard
+        old(r).data@.len() < 4 ==> res is Err,
+        //# C19.format_string
+        old(r).data@.len() >= 5 && str_fits(Some(old(r).data@[4] & 0x1 != 0), old(r).data@.skip(5), le16(old(r).data@.skip(2)))
+            ==> res is Ok && res->Ok_0.0 as int == le16(old(r).data@)
+            && res->Ok_0.1 == fmt_of(str_text(*encoding, Some(old(r).data@[4] & 0x1 != 0), old(r).data@.skip(5), le16(old(r).data@.skip(2)))),
+        //# C19.format_cursor
+        res is Ok ==> final(r).cont == old(r).cont && final(r).typ == old(r).typ,
+//@@ before /let cch = /
+    proof { assert(r.data@.subrange(2, r.data@.len() as int) =~= r.data@.skip(2)); }
+//@@ before /encoding\.decode_to/
+    proof {
+        let d = old(r).data@;
+        if d.len() >= 5 {
+            assert(r.data@ =~= d.skip(5));
+            if str_fits(Some(high_byte), r.data@, cch as int) { lemma_dt_full(*encoding, Some(high_byte), r.data@, cch as int); }
+        }
+    }
+//@@ end
+
+} // mod m_strings
 
 } // verus!
 fn main() {}
